@@ -552,13 +552,14 @@ def check_eval(ctx, exe, n):
                 # the model is solve_along_surface as coded (`< 0`); the implementation behaves like the repaired `<= 0`
                 ctx.count("along-surface-matches-repaired-model")
             elif not same_pat:
-                if not knife:
+                if not knife and not ill_conditioned(case):
                     bad = "intersection pattern"
                 else:
                     ctx.count("knife-edge-accepted")
             else:
                 for i, (a, b) in enumerate(zip(mints, ints)):
-                    if b < 1e300 and not (abs(a - b) <= 1e-9 * abs(b) + 256 * spread[i] + 1e-300) and not knife:
+                    if b < 1e300 and not (abs(a - b) <= 1e-9 * abs(b) + 256 * spread[i] + 1e-300) and not knife \
+                       and not ill_conditioned(case):
                         bad = "intersection value"
             if bad is None:
                 for a, b in zip(mnrm, nrm):
@@ -577,6 +578,24 @@ def check_eval(ctx, exe, n):
                 break
     ctx.coverage["traces_validated_against_impl"] = len(cases)
     return found
+
+
+def ill_conditioned(case):
+    """the number/value of roots is decided within rounding noise of the exact ray polynomial
+    (tangent ray, ray parallel to a plane, start point 1e8 sizes away): either answer is acceptable"""
+    ty, d, p, dr, on, kind = case
+    q = gq_form(ty, d)
+    P = [Fr(x) for x in p]; D = [Fr(x) for x in dr]
+    A, B, C = ray_poly(q, P, D)
+    gr = grad_exact(q, P)
+    magB = float(sum(abs(a * b) for a, b in zip(gr, D))) / 2 + 64 * EPS * f_mag((q[0], q[1], [Fr(0)] * 3, Fr(0)), P) ** 0.5
+    mag = f_mag(q, P)
+    if not on and abs(float(C)) <= 256 * EPS * mag:
+        return True     # start point on the surface to rounding with state "off": a root at ~0 may or may not appear
+    if abs(float(A)) < 4 * MIN_A:
+        return abs(float(B)) <= 4096 * EPS * max(magB, 1e-300) or abs(float(B)) <= 4 * MIN_A
+    disc = B * B - A * (Fr(0) if on else C)
+    return abs(float(disc)) <= 4096 * EPS * (float(B * B) + abs(float(A)) * mag + magB * magB)
 
 
 def size_of(ty, d):
@@ -633,12 +652,19 @@ def oracle_eval(ctx, case, impl, knife, spread, sense_knife, nspread):
     window = (ty in ("kx", "ky", "kz", "sq", "gq") and 0 < abs(fa) < 4 * MIN_A) or \
              (ty[0] == "c" and fa < 4 * MIN_A) or (ty in ("kx", "ky", "kz", "sq", "gq") and fa == 0 and abs(fb) <= 4 * MIN_A)
     # the spheres/cylinders assume |d| = 1: A differs from the code's a by rounding only
+    Ma = f_mag((q[0], q[1], [Fr(0)] * 3, Fr(0)), D)
+    absP = [abs(x) for x in P]
+    Mb = float(sum((2 * abs(q[0][k]) * absP[k] + abs(q[2][k])) * abs(D[k]) for k in range(3))
+               + (abs(q[1][0]) * (absP[1] * abs(D[0]) + absP[0] * abs(D[1])) + abs(q[1][1]) * (absP[2] * abs(D[1]) + absP[1] * abs(D[2]))
+                  + abs(q[1][2]) * (absP[0] * abs(D[2]) + absP[2] * abs(D[0])))) / 2
     for i, t in fin:
         T = Fr(t)
         resid = A * T * T + 2 * B * T + Ce
         slope = abs(2 * A * T + 2 * B)
         dt = 1e-9 * t + 512 * spread[i] + 1e-300
         tol = float(slope) * dt + abs(fa) * dt * dt + 64 * EPS * (f_mag(q, [P[k] + T * D[k] for k in range(3)]))
+        # a-priori bound: rounding of the computed coefficients a, hb, c (sums of the absolute values of their terms)
+        tol += 64 * EPS * (t * t * Ma + 2 * t * Mb + mag) + 8 * EPS * t * float(slope)
         if window:
             tol += abs(fa) * t * t * 1.01
         if knife:
@@ -739,6 +765,41 @@ def check_transforms(ctx, exe, n):
         d = gen_surface(r, ty, L)
         pts = [rnd_pt(r, 3 * L) for _ in range(4)] + [on_surface_point(r, ty, d, L) or rnd_pt(r, L)]
         cases.append(("xlate", ty, d, None, rnd_pt(r, 2 * L), pts))
+    # simplifier: surfaces that do simplify (flips, axis alignment, converters, centring, snapping)
+    for i in range(max(40, n // 4)):
+        L = 1.0
+        k = r.choice([1.0, 1.0, 2.5, -1.0, -3.0, 0.5])
+        c = r.randrange(8)
+        if c == 0:
+            nrm = [0.0, 0.0, 0.0]; nrm[r.randrange(3)] = r.choice([1.0, -1.0])
+            if r.random() < 0.3:
+                nrm[r.randrange(3)] += r.choice([1e-12, -1e-12]) if abs(nrm[0]) + abs(nrm[1]) + abs(nrm[2]) == 1 else 0.0
+            ty, d = "p", nrm + [r.choice([0.0, 1e-12, r.uniform(-2, 2)])]
+        elif c == 1:
+            nrm = unit(r); sg = r.choice([1, -1])
+            ty, d = "p", [sg * abs(x) * r.choice([1, 1, -1]) for x in nrm] + [r.uniform(-2, 2)]
+        elif c in (2, 3):
+            base = r.choice(["s", "cx", "cy", "cz", "kx", "ky", "kz", "p", "sc", "czc"])
+            abc, cr, g, j = gq_form(base, gen_surface(r, base, L))
+            ty, d = "sq", [float(x) * k for x in abc] + [float(x) * k for x in g] + [float(j) * k]
+        elif c == 4:
+            base = r.choice(["s", "cx", "kz", "sq", "p"])
+            abc, cr, g, j = gq_form(base, gen_surface(r, base, L))
+            ty, d = "gq", [float(x) * k for x in abc] + [0.0, 0.0, 0.0] + [float(x) * k for x in g] + [float(j) * k]
+        elif c == 5:
+            base = r.choice(["s", "cx", "kz", "sq"])
+            q0 = gq_form(base, gen_surface(r, base, L))
+            ty, d = "gq", [float(x) * k for x in gq_transform_exact(q0, rnd_rotation(r), rnd_pt(r, L))]
+        elif c == 6:
+            ty = r.choice(["s", "cx", "cy", "cz", "kx", "px"])
+            d = gen_surface(r, ty, L)
+            for jx in range(len(d) - 1 if ty != "px" else 1):
+                if r.random() < 0.7:
+                    d[jx] = r.choice([0.0, 1e-12, -1e-12, -0.0])
+        else:
+            ty = r.choice(TYPES); d = gen_surface(r, ty, L)
+        pts = [rnd_pt(r, 3 * L) for _ in range(4)]
+        cases.append(("simpl", ty, d, None, None, pts))
     lines = []
     for cmd, ty, d, R, tra, pts in cases:
         ptxt = "%d %s" % (len(pts), " ".join(hx(p) for p in pts))
@@ -809,7 +870,8 @@ def check_transforms(ctx, exe, n):
                 fv = float(f_exact(q, P)); mg = f_mag(q, P)
                 tnorm = max(1.0, max(abs(x) for x in p + tra))
                 # oracle: transform invariance of the sense, for points clearly off the surface
-                if abs(fv) > 1e-6 * mg and so != sn:
+                gnrm = math.sqrt(sum(float(x) ** 2 for x in grad_exact(q, P)))
+                if abs(fv) > 1e-6 * mg + 1e-9 * gnrm * tnorm and so != sn:
                     bad = "sense not preserved: sense(S)(p) = %d, sense(T S)(T p) = %d at p = %r" % (so, sn, p)
                 if any(abs(du[i] - p[i]) > 1e-11 * tnorm for i in range(3)):
                     bad = "transform_down(transform_up(p)) != p: %r vs %r" % (du, p)
